@@ -246,7 +246,18 @@ def run(ctx):
             V.add("C11/no-outcome", {"tag": c[0], "src": c[1], "expect": c[2], "needs_includes": "include" in c[0]}, "timeout")
         elif r is not None:
             V.add(r[0], {"tag": c[0], "src": c[1], "expect": c[2], "needs_includes": "include" in c[0]}, r[1])
-    cov = {"evaluations": len(cases) + ng, "distinct_nontrivial": len(set(c[1] for c in cases)) + ng, "grammar_driven_non_integer_mode_statements": ng, "grammar_driven_max_tokens": L,
+    # every faulty script once more in interpreters started with -O / -OO: refused there too (a refusal written as an
+    # assert statement is no refusal in an optimised interpreter)
+    srcs = [c[1] for c, r in zip(cases, res) if r is None]       # (what the ordinary interpreter already accepts is reported above)
+    parts = [srcs[i::6] for i in range(6)]
+    tasks = [(part, fl) for fl in (["-O"], ["-OO"]) for part in parts]
+    nchild = 0
+    for (part, fl), outs in zip(tasks, pool.pmap(common.loads_in_child, tasks, chunk=1, timeout=1800)):
+        for src_, o in zip(part, outs if isinstance(outs, list) else []):
+            nchild += 1
+            if o == "ok":
+                V.add("C11/accepted-by-python " + " ".join(fl), {"tag": "child", "src": src_, "expect": None, "needs_includes": "include" in src_, "flags": fl}, "loaded in an interpreter started with %s" % " ".join(fl))
+    cov = {"evaluations": len(cases) + ng + nchild, "distinct_nontrivial": len(set(c[1] for c in cases)) + ng, "grammar_driven_non_integer_mode_statements": ng, "grammar_driven_max_tokens": L,
            "rule": "valid prefix x valid suffix x exactly one fault: undefined name in %d slots (x %d names) and 8 metadata-option slots (keyword and positional values); %d reserved names x %d declaration forms; %d non-integer mode forms x 2 statement shapes; "
                    "%d complex expressions x %d int/float slots; wrong-type loop values x 3 bracket styles; 13 mismatched include calls, each also after correct applications of the same program. non-trivial = every case (each has exactly one fault); distinct by source text"
                    % (len(UND), len(NAMES), len(RESERVED), len(DECLS), len(MODES), len(CPLX), len(CSLOTS)),
@@ -269,6 +280,9 @@ def replay(case):
         write_includes(d)
         src = re.sub(r'include "[^"]*/(sub2|subp|sparse|vars|varsarr)\.xbb"', lambda m: 'include "%s/%s.xbb"' % (d, m.group(1)), src)
     try:
+        if case.get("flags"):
+            o = common.loads_in_child(([src], case["flags"]))[0]
+            return o == "ok", "child interpreter %s: %s" % (" ".join(case["flags"]), o)
         exp = case["expect"]
         r = judge(src, tuple(exp) if exp else None)
     finally:
